@@ -37,8 +37,21 @@ CLAIMED.update({
     "C22": ("guard-type analysis (destructor must-release, forget-after-release) + unwind-window effect analysis: user-code effect closed over the call graph, every unwind edge inside a fragile window must reach a repair guard (MIR with unwind edges)", "post-panic results of concrete histories are not decided; user Drop impls are not modelled as user code; known findings F2/F2b are listed, not suppressed wholesale"),
 })
 
+CLAIMED.update({
+    "C10": ("decision refinement on specify (ownership, keep-computed, twice-panics), value-origin flow of the inserted memo, creator re-validation table (MIR)", "path-independence of values for concrete request orders is not decided"),
+    "C11": ("traversal-order flow (LIFO + reversed inputs, visited set), prune-only-if-empty guard analysis, accumulated-flag propagation flow (MIR)", "value sequences for concrete programs are not decided"),
+    "C12": ("convergence/finalisation conjunct analysis (edge-cut guards on verified_final := true), provisional-reuse loop conditions, iteration seeding flow (MIR)", "least-fixpoint-ness, monotonicity and flattening correctness are not decided"),
+    "C13": ("value-origin flow for FallbackImmediate + generated CYCLE_STRATEGY table (MIR of salsa and of the expanded specimen crate)", "participant sets for concrete graphs are not decided"),
+    "C15": ("const bound + loop-rank (back edge only via the incremented stamp) + must-panic handlers via interprocedural divergence (MIR)", "later revisions are not decided"),
+    "C20": ("wait-loop exit condition and order around Arc::get_mut, who-may-get_mut census, cancellation-epoch conjunct analysis, atomic-ordering table, expanded setters (MIR)", "values after concrete histories are not decided"),
+    "C21": ("bit algebra on the token constants, guard-type analysis, trigger/throw decision tables, attach-guard reset condition (MIR + specimen)", "schedules are not decided"),
+    "C23": ("deferred-free flow, publication order + orderings on the page length, &mut-only reclamation census, Option-typestate before unwrap_unchecked (shared) (MIR)", "freedom from undefined behaviour in general is NOT decided (needs Miri/sanitizers, another family)"),
+    "C24": ("page-ownership writers census and flow, publication order, bit-split algebra of make_id/split_id (MIR + consts)", "distinctness under concrete interleavings is not decided"),
+    "C25": ("mask/shift algebra on const-evaluated items + writer/reader value-origin agreement, with the arithmetic lemma stated in DESIGN.md", "IndexSet order preservation is trusted; persistence round trip is C26"),
+})
+
 PENDING = "check not built yet in this round (see DESIGN.md section 5 for the planned static obligations)"
-NOT_APPLICABLE = {}
+NOT_APPLICABLE = {"C26": "persistence is a non-default cargo feature; its writer/reader schema-agreement obligations are planned for the thorough tier (DESIGN.md C26) and are not built yet; value equality after a serde round trip and absence of re-execution quantify over runtime values and are out of reach of a static argument"}
 
 
 def main():
